@@ -398,7 +398,7 @@ class Check:
         """greedy delta debugging of a failing case: drop items, then halve values, while a failure of the same kind persists"""
         judge = f.get("_judge")
         case = f["case"]
-        if judge is None or case.get("alg") not in ALGS or f["fmt"] not in FORMATS + ["uarray", "narrow"] or f["outtype"] not in OUTTYPES:
+        if judge is None or case.get("alg") not in ALGS or f["fmt"] not in FORMATS + ["uarray", "narrow", "f16"] or f["outtype"] not in OUTTYPES:
             return f
         best, tried, kind = dict(case, vals=list(case["vals"])), 0, f["kind"]
         best_got = f["observed"]
